@@ -419,15 +419,20 @@ class kt_arrange_perm(Contract):
     props = ("C08", "C19")
     doc = ("K.arrange(permutation=p) for an index vector p of length R with entries in 0..R-1, in place: weight j becomes the "
            "old weight p[j] and column j of every factor the old column p[j] (components re-ordered, each rank-one term kept); "
-           "a vector of another length raises; permutation together with weight_factor raises.  Loop invariant over the modes.  "
-           "(The sorting form arrange() / arrange(weight_factor=n) goes through normalize and is bounded only.)")
+           "a vector of another length raises; permutation together with weight_factor raises.  K.arrange() without arguments: "
+           "K.normalize() (its contract, applied at the call site: the in-place postcondition of one contract used inside another) "
+           "followed by a re-ordering by a permutation p of the components such that the weights are non-negative and in "
+           "decreasing order and component j is the normalised component p[j].  Loop invariants over the modes.  "
+           "(arrange(weight_factor=n) is bounded only.)")
     inline = KT_INLINE
 
     def case_names(self):
-        return ["permutation", "permutation-and-weight-factor"]
+        return ["permutation", "permutation-and-weight-factor", "by-weight"]
 
     def setup(self, S, case):
         K = sym_ktensor_mut(S)
+        if case == "by-weight":
+            return dict(__self__=K, __byweight__=True)
         L = S.nat("L")
         p = S.vector("p", L, "int")
         R = K.ghost["R"]
@@ -438,9 +443,40 @@ class kt_arrange_perm(Contract):
         return a
 
     def raises_when(self, S, a):
+        if a.get("__byweight__"):
+            return
         yield "length-differs-from-the-number-of-components", a["__L__"] != a["__self__"].ghost["R"]
         if "weight_factor" in a:
             yield "permutation-and-weight-factor-together", True
+
+    @staticmethod
+    def _sorted_state(S, a, K, pre, parr, k):
+        """After K.normalize(): weights wabs, entries sn (named through the pre-state functions of the call).  Then component j
+        is the normalised component p[j]: for the weights, and for the factors of the first k modes."""
+        g = K.ghost
+        R, Nn = g["R"], g["N"]
+        w, ent, warr = _kt_state(K)
+        heap = K.fields["factor_matrices"]
+        pp = N.snap(parr)
+        j, m, i = z3.Int("as!j"), z3.Int("as!m"), z3.Int("as!i")
+        shp = lambda m_: T.tz(g["shape"].fn(m_))
+        wn = lambda j_: pre["w"](j_) * pre["P"](Nn, j_)
+        wabs = lambda j_: z3.If(wn(j_) < 0, -wn(j_), wn(j_))
+        sn = lambda m_, i_, j_: z3.If(z3.And(m_ == 0, wn(j_) < 0), -_normalised(pre, m_, i_, j_, 2), _normalised(pre, m_, i_, j_, 2))
+        pj = T.tz(pp.fn(j))
+        return z3.And(
+            T.tz(T.eq(warr.shape[0], R)),
+            T.ForAll([j], z3.Implies(z3.And(0 <= j, j < R), w(j) == wabs(pj)), [w(j)]),
+            T.ForAll([m], z3.Implies(z3.And(0 <= m, m < Nn), z3.And(T.tz(heap.rows(m)) == shp(m), T.tz(heap.cols(m)) == R)), [shp(m)]),
+            T.ForAll([m, i, j], z3.Implies(z3.And(0 <= m, m < Nn, 0 <= i, i < shp(m), 0 <= j, j < R),
+                                           ent(m, i, j) == z3.If(m < T.tz(k), sn(m, i, pj), sn(m, i, j))), [ent(m, i, j)]))
+
+    @staticmethod
+    def _inv_sort(S, a, env, k):
+        pre = S.body_ghosts.get("normalize:pre")
+        if not pre or not isinstance(env.get("p"), Arr):
+            return False
+        return kt_arrange_perm._sorted_state(S, a, env["self"], pre[-1], env["p"], k)
 
     @staticmethod
     def _inv(S, a, env, k):
@@ -462,11 +498,34 @@ class kt_arrange_perm(Contract):
 
     loops = {0: dict(modifies=["self"],
                      inv=lambda S, a, env, i: kt_arrange_perm._inv(S, a, env, i),
-                     havoc=lambda S, a, env, name: _havoc_kt(S, env["self"], "ar"))}
+                     havoc=lambda S, a, env, name: _havoc_kt(S, env["self"], "ar")),
+             1: dict(modifies=["self"],
+                     inv=lambda S, a, env, i: kt_arrange_perm._inv_sort(S, a, env, i),
+                     havoc=lambda S, a, env, name: _havoc_kt(S, env["self"], "as"))}
 
     def ensures(self, S, a, ret):
         K = a["__self__"]
         yield "returns-nothing", ret is None
+        if a.get("__byweight__"):
+            g = K.ghost
+            pre = S.body_ghosts.get("normalize:pre")
+            parr = S.it.top_env.get("p")
+            yield "normalised-first-then-sorted", bool(pre) and isinstance(parr, Arr)
+            if not (pre and isinstance(parr, Arr)):
+                return
+            pre = pre[-1]
+            yield "component-j-is-the-normalised-component-p[j]", self._sorted_state(S, a, K, pre, parr, g["N"]), "lemma"
+            pp = N.snap(parr)
+            j, j2 = z3.Int("as!ej"), z3.Int("as!ej2")
+            R = g["R"]
+            w, ent, warr = _kt_state(K)
+            yield "p-is-a-permutation-of-the-components", z3.And(
+                T.tz(T.eq(pp.shape[0], R)),
+                T.ForAll([j], z3.Implies(z3.And(0 <= j, j < R), z3.And(0 <= T.tz(pp.fn(j)), T.tz(pp.fn(j)) < R))),
+                T.ForAll([j, j2], z3.Implies(z3.And(0 <= j, j < j2, j2 < R), T.tz(pp.fn(j)) != T.tz(pp.fn(j2)))))
+            yield "weights-non-negative", T.ForAll([j], z3.Implies(z3.And(0 <= j, j < R), w(j) >= 0))
+            yield "weights-in-decreasing-order", T.ForAll([j], z3.Implies(z3.And(0 <= j, j + 1 < R), w(j) >= w(j + 1)))
+            return
         yield "components-re-ordered", self._inv(S, a, dict(self=K), K.ghost["N"])
 
 
@@ -648,6 +707,34 @@ class kt_normalize(Contract):
             T.ForAll([m, i, j], z3.Implies(z3.And(0 <= m, m < Nn, 0 <= i, i < shp(m), 0 <= j, j < R),
                                            ent(m, i, j) == z3.If(z3.And(m == mode, j < r), _normalised(g, m, i, j, p), g["fm"](m, i, j))), [ent(m, i, j)]))
 
+    # ---- call sites: only the default form K.normalize() (all modes, weights kept, no sorting)
+    def fresh_result(self, S, a):
+        K = a["__self__"]
+        heap = K.fields.get("factor_matrices")
+        if not (isinstance(K, Rec) and isinstance(heap, HeapList)) or a.get("mode") is not None or a.get("weight_factor") is not None \
+                or a.get("sort") not in (None, False):
+            raise PathAbort("ktensor.normalize contract at a call site: only K.normalize() on a mutable factor list is supported")
+        g0 = K.ghost
+        # the state before the call, named by fresh functions (the postcondition speaks about it)
+        FM0 = z3.Function(T.fresh_name("pre_fm"), I_, I_, I_, z3.RealSort())
+        W0 = z3.Function(T.fresh_name("pre_w"), I_, z3.RealSort())
+        w, ent, _ = _kt_state(K)
+        m, i, j = z3.Int("pc!m"), z3.Int("pc!i"), z3.Int("pc!j")
+        shp = lambda m_: T.tz(g0["shape"].fn(m_))
+        S.ctx.assume(T.ForAll([m, i, j], z3.Implies(z3.And(0 <= m, m < g0["N"], 0 <= i, i < shp(m), 0 <= j, j < g0["R"]), FM0(m, i, j) == ent(m, i, j)), [FM0(m, i, j)]))
+        S.ctx.assume(T.ForAll([j], z3.Implies(z3.And(0 <= j, j < g0["R"]), W0(j) == w(j)), [W0(j)]))
+        pre = dict(N=g0["N"], R=g0["R"], shape=g0["shape"], fm=FM0, w=W0)
+        p = a.get("normtype", 2)
+        _norm_facts(S, pre, p)
+        pre["P"] = z3.Function(T.fresh_name("P"), I_, I_, z3.RealSort())
+        k, r = z3.Int("pp!k"), z3.Int("pp!r")
+        S.ctx.assume(T.ForAll([r], pre["P"](0, r) == 1, [pre["P"](0, r)]))
+        S.ctx.assume(T.ForAll([k, r], z3.Implies(k >= 0, pre["P"](k + 1, r) == pre["P"](k, r) * pre["CN"](k, r)), [pre["P"](k + 1, r)]))
+        a["__pre__"], a["__all__"], a["normtype"] = pre, True, p
+        S.ctx.log_ghost("normalize:pre", pre)
+        _havoc_kt(S, K, "post")
+        return K
+
     loops = {0: dict(modifies=["self"],
                      inv=lambda S, a, env, i: kt_normalize._inv_mode(S, a, env, i),
                      havoc=lambda S, a, env, name: _havoc_kt(S, env["self"], "nm")),
@@ -665,6 +752,8 @@ class kt_normalize(Contract):
         if a.get("__all__"):
             yield from self._ensures_all(S, a, K)
             return
+        if S.at_call_site:
+            raise PathAbort("ktensor.normalize contract at a call site: unsupported form")
         yield "columns-scaled-by-their-norm-weights-multiplied", self._inv_mode(S, a, dict(self=K), g["R"])
         # each rank-one term keeps its value.  Stated for an arbitrary entry (i0, j0) (fresh constants, constrained to the
         # index range only, so this is the universally quantified statement); the four facts about that entry are
@@ -689,14 +778,14 @@ class kt_normalize(Contract):
 
 
 def _kt_normalize_ensures_all(self, S, a, K):
-    g = K.ghost
+    g = a.get("__pre__") or K.ghost
     R, Nn, p, P = g["R"], g["N"], a["normtype"], g["P"]
     w, ent, warr = _kt_state(K)
     j, m, i = z3.Int("ne!j"), z3.Int("ne!m"), z3.Int("ne!i")
     shp = lambda m_: T.tz(g["shape"].fn(m_))
     wn = lambda j_: g["w"](j_) * P(Nn, j_)        # weight after the normalisation loops, before the sign step
     gs, cs = S.body_ghosts.get("select"), S.body_ghosts.get("colscatter")
-    if gs and cs:
+    if gs and cs and not S.at_call_site:
         # witnesses: a component with a negative scaled weight is selected by np.where (at rank rk(j)), hence hit by the
         # column assignment; and every column that is hit was selected
         (Ksel, sel, rk), (has, last) = gs[0], cs[-1]
@@ -705,7 +794,7 @@ def _kt_normalize_ensures_all(self, S, a, K):
         yield "lemma:selected-columns-are-flipped", T.ForAll([j], z3.Implies(z3.And(0 <= j, j < R, wn(j) < 0), has(j)), [has(j)]), "lemma"
         yield "lemma:only-selected-columns-are-flipped", T.ForAll([j], z3.Implies(z3.And(0 <= j, j < R, has(j)), wn(j) < 0), [has(j)]), "lemma"
     wabs = lambda j_: z3.If(wn(j_) < 0, -wn(j_), wn(j_))
-    if "weight_factor" in a:
+    if a.get("weight_factor") is not None:
         wf = a["weight_factor"]
         signed = lambda m_, i_, j_: z3.If(z3.And(m_ == 0, wn(j_) < 0), -_normalised(g, m_, i_, j_, p), _normalised(g, m_, i_, j_, p))
         yield "weights-are-one", z3.And(T.tz(T.eq(warr.shape[0], R)), T.ForAll([j], z3.Implies(z3.And(0 <= j, j < R), w(j) == 1), [w(j)]))
@@ -721,6 +810,8 @@ def _kt_normalize_ensures_all(self, S, a, K):
         [m, i, j], z3.Implies(z3.And(0 <= m, m < Nn, 0 <= i, i < shp(m), 0 <= j, j < R),
                               ent(m, i, j) == z3.If(z3.And(m == 0, wn(j) < 0), -_normalised(g, m, i, j, p), _normalised(g, m, i, j, p))), [ent(m, i, j)])
     yield "columns-normalised-first-factor-carries-the-sign", cols_clause, "lemma"
+    if S.at_call_site:
+        return      # callers get the two state clauses; term preservation is a consequence proved under this contract's own name
 
     # ---- every rank-one term keeps its value: w'_r * prod_m U'_m[i_m, r] = w_r * prod_m U_m[i_m, r] for an arbitrary
     # component r0 and multi-index ix (fresh symbols constrained to their ranges only).  The products over the symbolic
